@@ -3,7 +3,8 @@ package main
 // Translation of Grouper.Aggregate / Grouper.QFrames (grouper.go), of the wrappers QFrame.GroupBy / QFrame.Distinct
 // with their helpers (qframe.go), of groupby.NewConfig (config/groupby), of the aggregation loop and the
 // built-in aggregations of internal/icolumn, fcolumn, bcolumn (the instances of internal/template) and of the
-// Comparable of all five column packages (constructor, Compare, Hash; scolumn's bytesAt) into Gallina
+// Comparable of all five column packages (constructor, Compare, Hash; scolumn's bytesAt), of Column.Subset of
+// all five, of stringSlice / Aggregate of scolumn and ecolumn and of scolumn.New / NewBytes into Gallina
 // (coq/Gen/GenAggr.v, tie T1 for C04 / C03).
 //
 // The functions listed in gaSpecs are translated statement by statement into definitions ga_<name>.
@@ -42,7 +43,12 @@ package main
 //	unsafe      ( *[8]byte)(unsafe.Pointer(&v))[:] for a uint64 variable v -> ga_le64 v (its little-endian bytes);
 //	            x := &s[i] of an []int, x only handed to ( *[8]byte)(unsafe.Pointer(x))[:] -> ga_le64 (ga_u64 x)
 //	            (two's complement); both text-matched.  [1]byte{e} / b[:] -> the one element byte list.
-//	            NOT translated: scolumn.Column.Aggregate (func([]*string) *string, New), Subset, the views.
+//	strings     *string -> option bytes (nil = None; &s / &values[i] -> Some, *p -> ga_deref p: exact because the
+//	            pointees are never stored into); func([]*string) *string is a Coq function on list (option bytes)
+//	            (fn_cases_string); append(b, s...) -> b ++ s; qfstrings.NewPointer -> gf_strings_NewPointer,
+//	            qfstrings.UnsafeBytesToString -> the identity (body text-matched); an scolumn.Column /
+//	            ecolumn.Column returned as a column.Column goes through scolumn_AsColumn / ecolumn_AsColumn.
+//	            NOT translated: the views, Append, the filters (GenKernels), the other constructors.
 //	values      int -> Z (exact: positions, lengths, counters; in the functions listed in gaWrapInts, whose ints
 //	            are data, + wraps: wrap64); uint32 -> Z, uint32(e) -> ga_u32 e; bool; string -> bytes;
 //	            error -> option E (nil = None); column.Column (an interface value) -> option C (nil = None, a
@@ -134,6 +140,9 @@ var gaSpecs = []gaSpec{
 	{gaIcolumnPkg, "sum"}, {gaIcolumnPkg, "max"}, {gaIcolumnPkg, "min"}, {gaIcolumnPkg, "aggregations"},
 	{gaIcolumnPkg, "Column.subsetWithBuf"}, {gaIcolumnPkg, "Column.Aggregate"},
 	{gaIcolumnPkg, "Column.Comparable"}, {gaIcolumnPkg, "Comparable.Compare"}, {gaIcolumnPkg, "Comparable.Hash"},
+	{gaIcolumnPkg, "Column.subset"}, {gaIcolumnPkg, "Column.Subset"},
+	{"internal/fcolumn", "Column.subset"}, {"internal/fcolumn", "Column.Subset"},
+	{"internal/bcolumn", "Column.subset"}, {"internal/bcolumn", "Column.Subset"},
 	{"internal/fcolumn", "sum"}, {"internal/fcolumn", "avg"}, {"internal/fcolumn", "max"}, {"internal/fcolumn", "min"},
 	{"internal/fcolumn", "aggregations"}, {"internal/fcolumn", "Column.subsetWithBuf"}, {"internal/fcolumn", "Column.Aggregate"},
 	{"internal/fcolumn", "Column.Comparable"}, {"internal/fcolumn", "Comparable.Compare"}, {"internal/fcolumn", "Comparable.Hash"},
@@ -142,7 +151,12 @@ var gaSpecs = []gaSpec{
 	{"internal/bcolumn", "Comparable.Hash"},
 	{"internal/scolumn", "Column.bytesAt"}, {"internal/scolumn", "Column.Comparable"}, {"internal/scolumn", "Comparable.Compare"},
 	{"internal/scolumn", "Comparable.Hash"},
+	{"internal/scolumn", "NewBytes"}, {"internal/scolumn", "New"}, {"internal/scolumn", "Column.subset"},
+	{"internal/scolumn", "Column.Subset"}, {"internal/scolumn", "Column.stringAt"}, {"internal/scolumn", "Column.stringSlice"},
+	{"internal/scolumn", "Column.Aggregate"},
 	{"internal/ecolumn", "Column.Comparable"}, {"internal/ecolumn", "Comparable.Compare"}, {"internal/ecolumn", "Comparable.Hash"},
+	{"internal/ecolumn", "Column.subset"}, {"internal/ecolumn", "Column.Subset"}, {"internal/ecolumn", "Column.stringSlice"},
+	{"internal/ecolumn", "Column.Aggregate"},
 }
 
 // functions whose ints are data (64 bit wrap-around on +)
@@ -175,6 +189,8 @@ var gaVocabulary = []struct{ pkg, fn, text string }{
 	{"internal/strings", "Pointer.IsNull", "func (p Pointer) IsNull() bool"},
 	{"internal/strings", "Pointer.Offset", "func (p Pointer) Offset() int"},
 	{"internal/strings", "Pointer.Len", "func (p Pointer) Len() int"},
+	{"internal/strings", "NewPointer", "func NewPointer(offset, length int, isNull bool) Pointer"},
+	{"internal/strings", "UnsafeBytesToString", "func UnsafeBytesToString(in []byte) string {\n\treturn unsafe.String(unsafe.SliceData(in), len(in))\n}"},
 }
 
 // type declarations and interface methods the vocabulary stands for: pkg, type name, text that must occur
@@ -193,8 +209,8 @@ var gaTypeTexts = []struct{ pkg, name, text string }{
 
 const gaPreamble = `(* GENERATED by tools/qf2coq (aggr.go) from grouper.go, qframe.go (GroupBy, Distinct and their helpers),
    config/groupby, internal/icolumn / fcolumn / bcolumn (Aggregate, subsetWithBuf, aggregations.go) and the
-   Comparable (constructor, Compare, Hash) of internal/icolumn / fcolumn / bcolumn / scolumn / ecolumn of
-   tobgu/qframe — do not edit.
+   Comparable (constructor, Compare, Hash) and Column.Subset of internal/icolumn / fcolumn / bcolumn / scolumn /
+   ecolumn, stringSlice / Aggregate of scolumn and ecolumn, scolumn.New of tobgu/qframe — do not edit.
    One Record ga_<T> per struct, one definition ga_<function> per translated Go function, one Definition
    ga_<function>_loopN (a fix over the ranged list) per loop; the scheme is described at the top of
    tools/qf2coq/aggr.go.  C = a non-nil column.Column, E = error value, Fn = interface{} (aggregation function or
@@ -269,6 +285,7 @@ Variable fn_eq_string : Fn -> bytes -> bool.                  (* fn == "literal"
 Variable fn_cases_int : Fn -> ga_fncase Z.                    (* switch t := fn.(type) in icolumn *)
 Variable fn_cases_float64 : Fn -> ga_fncase N.                (* ... in fcolumn *)
 Variable fn_cases_bool : Fn -> ga_fncase bool.                (* ... in bcolumn *)
+Variable fn_cases_string : Fn -> ga_fncase (option bytes).    (* ... in scolumn / ecolumn: func([]*string) *string *)
 Variable col_Subset : C -> list Z -> outcome (option C).      (* col.Subset(index) *)
 Variable col_Aggregate : C -> list (list Z) -> Fn -> outcome (option C * option E).   (* col.Aggregate(indices, fn) *)
 Variable col_Comparable : C -> bool -> bool -> bool -> K.     (* col.Comparable(reverse, equalNull, nullLast) *)
@@ -367,6 +384,8 @@ func (t *gaT) coq() string {
 		return "N"
 	case "u8", "ptr", "pint":
 		return "Z"
+	case "pstr":
+		return "(option bytes)"
 	case "func":
 		return "(list " + t.el.coq() + " -> outcome " + t.el.coq() + ")"
 	case "buf":
@@ -397,7 +416,7 @@ func (t *gaT) zero() (string, bool) {
 		return "false", true
 	case "string":
 		return "(@nil N)", true
-	case "err", "col":
+	case "err", "col", "pstr":
 		return "None", true
 	case "stats":
 		return "s0", true
@@ -491,6 +510,10 @@ func gaResolve(pkg, src string) *gaT {
 		return gaK("byte")
 	case "qfstrings.Pointer":
 		return gaK("ptr")
+	case "*string":
+		return gaK("pstr")
+	case "func([]*string) *string":
+		return &gaT{k: "func", el: gaK("pstr")}
 	}
 	if cp, ok := gaColPkgs[pkg]; ok && cp.elem != "" {
 		el := gaResolve(pkg, cp.elem)
@@ -788,8 +811,11 @@ func (t *gaTr) coerce(n ast.Node, text string, have, want *gaT) string {
 	if have.same(want) {
 		return text
 	}
-	if have.k == "nil" && (want.k == "err" || want.k == "col") {
+	if have.k == "nil" && (want.k == "err" || want.k == "col" || want.k == "pstr") {
 		return "None"
+	}
+	if have.k == "slice" && have.el.k == "byte" && want.k == "string" || have.k == "string" && want.k == "slice" && want.el.k == "byte" {
+		return text
 	}
 	if have.k == "nil" && (want.k == "slice" || want.k == "map") {
 		return "[]"
@@ -891,6 +917,14 @@ func (t *gaTr) expr(e ast.Expr, c gaCtx, pre *[]string) (string, *gaT) {
 				if ty.k == "int" {
 					return y, gaK("pint")
 				}
+				if ty.k == "string" { // &values[i]: only read through
+					return "(Some " + y + ")", gaK("pstr")
+				}
+			}
+			if id, ok := x.X.(*ast.Ident); ok { // &s of a string variable that is not stored into afterwards
+				if v, ok := c.lookup(id.Name); ok && v.ty.k == "string" {
+					return "(Some " + v.coq + ")", gaK("pstr")
+				}
 			}
 		}
 	case *ast.StarExpr:
@@ -898,12 +932,15 @@ func (t *gaTr) expr(e ast.Expr, c gaCtx, pre *[]string) (string, *gaT) {
 		if ty.k == "buf" {
 			return "(fst " + y + ")", gaSlice(ty.el)
 		}
+		if ty.k == "pstr" {
+			return t.bind(pre, "ga_deref "+y, gaK("string"))
+		}
 	case *ast.IndexExpr:
 		s, ty := t.expr(x.X, c, pre)
 		i, ti := t.expr(x.Index, c, pre)
 		switch ty.k {
 		case "slice":
-			if ti.k != "u32" {
+			if ti.k != "u32" && ti.k != "u8" {
 				t.coerce(x.Index, i, ti, gaK("int"))
 			}
 			return t.bind(pre, fmt.Sprintf("ga_index %s %s", s, i), ty.el)
@@ -1110,9 +1147,9 @@ func (t *gaTr) binary(x *ast.BinaryExpr, c gaCtx, pre *[]string) (string, *gaT) 
 		text := ""
 		_, litB := x.Y.(*ast.BasicLit)
 		switch {
-		case tb.k == "nil" && (ta.k == "err" || ta.k == "col"):
+		case tb.k == "nil" && (ta.k == "err" || ta.k == "col" || ta.k == "pstr"):
 			text = "(ga_isnil " + a + ")"
-		case ta.k == "nil" && (tb.k == "err" || tb.k == "col"):
+		case ta.k == "nil" && (tb.k == "err" || tb.k == "col" || tb.k == "pstr"):
 			text = "(ga_isnil " + b + ")"
 		case isNum(ta.k) && isNum(tb.k), ta.k == "cres" && tb.k == "cres":
 			text = fmt.Sprintf("(%s =? %s)", a, b)
@@ -1238,6 +1275,15 @@ func (t *gaTr) call(x *ast.CallExpr, c gaCtx, pre *[]string) (string, *gaT) {
 		t.fail(x, "cap outside the scheme: %s", t.src(x))
 		return "0", gaBad
 	case "append":
+		if len(x.Args) == 2 && x.Ellipsis.IsValid() { // append(bytes, s...) for a string or a byte slice
+			s, ty := t.expr(x.Args[0], c, pre)
+			v, tv := t.expr(x.Args[1], c, pre)
+			if ty.k == "slice" && ty.el.k == "byte" && (tv.k == "string" || tv.same(ty)) {
+				return "(" + s + " ++ " + v + ")", ty
+			}
+			t.fail(x, "append(s, t...) outside the scheme: %s", t.src(x))
+			return "[]", gaBad
+		}
 		if len(x.Args) == 2 && !x.Ellipsis.IsValid() {
 			s, ty := t.expr(x.Args[0], c, pre)
 			v, tv := t.expr(x.Args[1], c, pre)
@@ -1309,6 +1355,20 @@ func (t *gaTr) call(x *ast.CallExpr, c gaCtx, pre *[]string) (string, *gaT) {
 			return "(Z.to_N " + a[0] + ")", gaK("byte")
 		}
 		return "0", gaBad
+	case "qfstrings.NewPointer":
+		if a, ok := t.argsOf(x, c, pre, gaK("int"), gaK("int"), gaK("bool")); ok {
+			return fmt.Sprintf("(gf_strings_NewPointer %s %s %s)", a[0], a[1], a[2]), gaK("ptr")
+		}
+		return "0", gaBad
+	case "qfstrings.UnsafeBytesToString":
+		if a, ok := t.argsOf(x, c, pre, gaSlice(gaK("byte"))); ok {
+			return a[0], gaK("string")
+		}
+		return "[]", gaBad
+	case "scolumn.New":
+		if g := gaFuncs["internal/scolumn:New"]; g != nil && t.f.spec.pkg == "internal/ecolumn" {
+			return t.callTranslated(g, x, "", c, pre)
+		}
 	case "hash.HashBytes":
 		if a, ok := t.argsOf(x, c, pre, gaSlice(gaK("byte")), gaK("u64")); ok {
 			return fmt.Sprintf("(memhash %s %s)", a[0], a[1]), gaK("u64")
@@ -1891,6 +1951,9 @@ func (t *gaTr) retCoerce(n ast.Node, text string, have, want *gaT) string {
 			return fmt.Sprintf("(Some (%s_Column (ga_%s_data %s)))", cp.short, have.rec, text)
 		}
 	}
+	if have.k == "rec" && want.k == "col" && (have.rec == "scolumn_Column" || have.rec == "ecolumn_Column") {
+		return fmt.Sprintf("(Some (%s_AsColumn %s))", have.rec[:7], text)
+	}
 	if have.k == "rec" && want.k == "cmp" && strings.HasSuffix(have.rec, "_Comparable") {
 		return fmt.Sprintf("(%s %s)", have.rec, text)
 	}
@@ -2281,7 +2344,11 @@ func (t *gaTr) typeSwitch(x *ast.TypeSwitchStmt, c gaCtx, cont func(gaCtx) strin
 			branches[k] = fmt.Sprintf("| %s _ =>\n%s", k, gaIndent(branches["ga_FnOther"][len("| ga_FnOther =>\n"):]))
 		}
 	}
-	return fmt.Sprintf("match fn_cases_"+gaColPkgs[t.f.spec.pkg].elem+" %s with\n%s\n%s\n%s\nend", scrut, branches["ga_FnString"], branches["ga_FnFunc"], branches["ga_FnOther"])
+	tag := gaColPkgs[t.f.spec.pkg].elem
+	if tag == "" {
+		tag = "string"
+	}
+	return fmt.Sprintf("match fn_cases_"+tag+" %s with\n%s\n%s\n%s\nend", scrut, branches["ga_FnString"], branches["ga_FnFunc"], branches["ga_FnOther"])
 }
 
 // gaTable translates a package level  var name = map[string]func([]int) int{"k": f, ..}
@@ -2495,6 +2562,8 @@ func genAggr() string {
 	for _, sh := range []string{"icolumn", "fcolumn", "bcolumn", "scolumn", "ecolumn"} {
 		fmt.Fprintf(&b, "Variable %s_Comparable : ga_%s_Comparable -> K.   (* an %s.Comparable as a column.Comparable *)\n", sh, sh, sh)
 	}
+	b.WriteString("Variable scolumn_AsColumn : ga_scolumn_Column -> C.   (* an scolumn.Column as a column.Column *)\n")
+	b.WriteString("Variable ecolumn_AsColumn : ga_ecolumn_Column -> C.   (* an ecolumn.Column as a column.Column *)\n")
 	b.WriteString("\n")
 	if cp := loadPkg("internal/column"); true {
 		found := false
